@@ -43,6 +43,7 @@ class Ctx:
         self.violations = []  # dicts: key, msg, replay
         self.known_seen = {}
         self.unreached = set()
+        self.reached = set()
         self.info = {}
         self._viol_per_key = {}
         self._nreplay = 0
@@ -89,6 +90,9 @@ class Ctx:
 
     def mark_unreached(self, name):
         self.unreached.add(name)
+
+    def mark_reached(self, name):
+        self.reached.add(name)
 
     # ---- verdicts --------------------------------------------------------------
     def violation(self, case, key, msg):
@@ -141,6 +145,7 @@ class Ctx:
             "samples": self.samples,
             "violations": self.violations,
             "unreached": sorted(self.unreached),
+            "reached": sorted(self.reached),
             "info": self.info,
             "wall_s": time.monotonic() - self.t0,
             "expired": self.expired(),
